@@ -46,17 +46,175 @@ theorem hashSlotSpec_wrap (pre tag post : Bytes) (hpre : lbrace ∉ pre) (htag :
   simp only [List.nil_append] at h2
   rw [h2]
 
-/-! ### the regenerated table -/
+/-! ### the regenerated table
 
-/-- one table entry: the tag hashes to its slot (through the model of
-    `redis.KeyToSlot`, what the init loop calls), is non-empty and brace-free -/
-def checkTag (slot i : Nat) : Bool :=
-  let t := slotTagOfIdx i
-  keyToSlot (braced t) == slot && !t.isEmpty && !t.contains rbrace && !t.contains lbrace
+  The 16384 entries are checked by kernel evaluation. To keep that fast the
+  check runs a Nat-only mirror of the bitwise CRC16 (`crcN`, written with the
+  GMP-accelerated `Nat.*` primitives) on a Nat-only mirror of the tag bytes
+  (`tagN`); both mirrors are proved equal to the model functions for all
+  inputs below, so the table theorem is about `hashSlotSpec` itself. -/
 
+def bitN (n : Nat) : Nat :=
+  Nat.xor (Nat.mod (Nat.shiftLeft n 1) 65536) (Nat.mul (Nat.shiftRight n 15) 0x1021)
+
+def byteN (c b : Nat) : Nat :=
+  bitN (bitN (bitN (bitN (bitN (bitN (bitN (bitN (Nat.xor c (Nat.shiftLeft b 8)))))))))
+
+def crcN (bs : List Nat) : Nat := bs.foldl byteN 0
+
+theorem bitStep_toNat (c : BitVec 16) : (bitStep c).toNat = bitN c.toNat := by
+  have hlt : c.toNat < 65536 := c.isLt
+  unfold bitStep bitN
+  rw [BitVec.msb_eq_decide]
+  show (if decide (2 ^ (16 - 1) ≤ c.toNat) = true then _ else _ : BitVec 16).toNat = _
+  by_cases h : 32768 ≤ c.toNat
+  · have e : Nat.shiftRight c.toNat 15 = 1 := by
+      show c.toNat >>> 15 = 1
+      rw [Nat.shiftRight_eq_div_pow]; omega
+    have hd : decide (2 ^ (16 - 1) ≤ c.toNat) = true := by simpa using h
+    rw [if_pos hd, e, BitVec.toNat_xor, BitVec.toNat_shiftLeft]
+    rfl
+  · have e : Nat.shiftRight c.toNat 15 = 0 := by
+      show c.toNat >>> 15 = 0
+      rw [Nat.shiftRight_eq_div_pow]; omega
+    have hd : ¬ decide (2 ^ (16 - 1) ≤ c.toNat) = true := by simpa using h
+    rw [if_neg hd, e, BitVec.toNat_shiftLeft]
+    show c.toNat <<< 1 % 2 ^ 16 = (c.toNat <<< 1 % 65536) ^^^ (0 * 4129)
+    rw [Nat.zero_mul, Nat.xor_zero]
+
+theorem specStep_toNat (crc : BitVec 16) (b : UInt8) :
+    (specStep crc b).toNat = byteN crc.toNat b.toNat := by
+  unfold specStep bitStep8 byteN
+  simp only [bitStep_toNat]
+  congr 8
+  rw [BitVec.toNat_xor, BitVec.toNat_shiftLeft, BitVec.toNat_setWidth]
+  have hb : b.toNat < 256 := b.toBitVec.isLt
+  show Nat.xor crc.toNat ((b.toNat % 2 ^ 16) <<< 8 % 2 ^ 16) = Nat.xor crc.toNat (b.toNat <<< 8)
+  have e1 : b.toNat % 2 ^ 16 = b.toNat := Nat.mod_eq_of_lt (by omega)
+  rw [e1, Nat.shiftLeft_eq]
+  have e2 : b.toNat * 2 ^ 8 % 2 ^ 16 = b.toNat * 2 ^ 8 := Nat.mod_eq_of_lt (by omega)
+  rw [e2]
+
+theorem crc16Spec_toNat_from (bs : Bytes) (c : BitVec 16) :
+    (bs.foldl specStep c).toNat = (bs.map UInt8.toNat).foldl byteN c.toNat := by
+  induction bs generalizing c with
+  | nil => rfl
+  | cons b rest ih =>
+    simp only [List.foldl_cons, List.map_cons]
+    rw [ih, specStep_toNat]
+
+theorem crc16Spec_toNat (bs : Bytes) : (crc16Spec bs).toNat = crcN (bs.map UInt8.toNat) :=
+  crc16Spec_toNat_from bs 0#16
+
+/-- Nat mirror of `hexLower` (most significant digit first) -/
+def hexN : Nat → Nat → List Nat → List Nat
+  | 0, _, acc => acc
+  | fuel+1, n, acc =>
+    let acc' := (bif Nat.blt (Nat.mod n 16) 10 then Nat.add 48 (Nat.mod n 16) else Nat.add 87 (Nat.mod n 16)) :: acc
+    bif Nat.beq (Nat.div n 16) 0 then acc' else hexN fuel (Nat.div n 16) acc'
+
+def isHexByte (b : Nat) : Prop := (48 ≤ b ∧ b ≤ 57) ∨ (97 ≤ b ∧ b ≤ 102)
+
+theorem hexDigit_toNat (d : Nat) (hd : d < 16) :
+    (hexDigit d).toNat = (bif Nat.blt d 10 then Nat.add 48 d else Nat.add 87 d) ∧ isHexByte (hexDigit d).toNat := by
+  unfold hexDigit isHexByte
+  by_cases h : d < 10
+  · have hb : Nat.blt d 10 = true := by
+      unfold Nat.blt; exact Nat.ble_eq_true_of_le (by omega)
+    rw [if_pos h, hb]
+    have : (UInt8.ofNat (48 + d)).toNat = 48 + d := by
+      rw [UInt8.toNat_ofNat']; omega
+    rw [this]
+    exact ⟨rfl, Or.inl ⟨by omega, by omega⟩⟩
+  · have hb : Nat.blt d 10 = false := by
+      unfold Nat.blt
+      cases hx : Nat.ble (d + 1) 10 with
+      | false => rfl
+      | true => exact absurd (Nat.le_of_ble_eq_true hx) (by omega)
+    rw [if_neg h, hb]
+    have : (UInt8.ofNat (87 + d)).toNat = 87 + d := by
+      rw [UInt8.toNat_ofNat']; omega
+    rw [this]
+    exact ⟨rfl, Or.inr ⟨by omega, by omega⟩⟩
+
+theorem hexLowerAux_toNat (fuel n : Nat) (acc : Bytes) :
+    (hexLowerAux fuel n acc).map UInt8.toNat = hexN fuel n (acc.map UInt8.toNat) ∧
+    ((∀ b ∈ acc, isHexByte b.toNat) → ∀ b ∈ hexLowerAux fuel n acc, isHexByte b.toNat) := by
+  induction fuel generalizing n acc with
+  | zero => exact ⟨rfl, fun h => h⟩
+  | succ f ih =>
+    have hd := hexDigit_toNat (n % 16) (Nat.mod_lt _ (by decide))
+    unfold hexLowerAux hexN
+    simp only
+    by_cases hz : n / 16 = 0
+    · have hb : Nat.beq (Nat.div n 16) 0 = true := by
+        show Nat.beq (n / 16) 0 = true
+        rw [hz]; rfl
+      rw [if_pos hz, hb]
+      refine ⟨?_, ?_⟩
+      · simp only [List.map_cons, cond_true]
+        rw [hd.1]; rfl
+      · intro h b hbm
+        rcases List.mem_cons.mp hbm with e | e
+        · rw [e]; exact hd.2
+        · exact h b e
+    · have hb : Nat.beq (Nat.div n 16) 0 = false := by
+        show Nat.beq (n / 16) 0 = false
+        cases hq : n / 16 with
+        | zero => exact absurd hq hz
+        | succ q => rfl
+      rw [if_neg hz, hb]
+      have := ih (n / 16) (hexDigit (n % 16) :: acc)
+      refine ⟨?_, ?_⟩
+      · rw [this.1]
+        simp only [List.map_cons, cond_false]
+        rw [hd.1]; rfl
+      · intro h
+        apply this.2
+        intro b hbm
+        rcases List.mem_cons.mp hbm with e | e
+        · rw [e]; exact hd.2
+        · exact h b e
+
+/-- Nat mirror of `slotTagOfIdx` -/
+def tagN (i : Nat) : List Nat := Gen.slotTagPrefix.map UInt8.toNat ++ hexN (Nat.succ i) i []
+
+theorem slotTagOfIdx_toNat (i : Nat) : (slotTagOfIdx i).map UInt8.toNat = tagN i := by
+  unfold slotTagOfIdx tagN hexLower
+  rw [List.map_append, (hexLowerAux_toNat (i + 1) i []).1]
+  rfl
+
+theorem prefix_braceFree : ∀ b ∈ Gen.slotTagPrefix, b ≠ lbrace ∧ b ≠ rbrace := by decide
+
+theorem slotTagOfIdx_braceFree (i : Nat) :
+    lbrace ∉ slotTagOfIdx i ∧ rbrace ∉ slotTagOfIdx i ∧ slotTagOfIdx i ≠ [] := by
+  have hh := (hexLowerAux_toNat (i + 1) i []).2 (by simp)
+  have key : ∀ b ∈ slotTagOfIdx i, b ≠ lbrace ∧ b ≠ rbrace := by
+    intro b hb
+    unfold slotTagOfIdx at hb
+    rcases List.mem_append.mp hb with h | h
+    · exact prefix_braceFree b h
+    · have := hh b h
+      unfold isHexByte at this
+      constructor
+      · intro e; rw [e] at this; revert this; decide
+      · intro e; rw [e] at this; revert this; decide
+  refine ⟨fun h => (key _ h).1 rfl, fun h => (key _ h).2 rfl, ?_⟩
+  unfold slotTagOfIdx
+  have : Gen.slotTagPrefix ≠ [] := by decide
+  intro e
+  exact this (List.append_eq_nil_iff.mp e).1
+
+/-- the CRC of the common prefix "slot-", evaluated once -/
+def prefixCrc : Nat := 25532
+
+theorem prefixCrc_eq : (Gen.slotTagPrefix.map UInt8.toNat).foldl byteN 0 = prefixCrc := by decide +kernel
+
+/-- one chunk of the table: entry `j` of the chunk hashes to slot `s + j` -/
 def checkChunk : Nat → List Nat → Bool
   | _, [] => true
-  | s, i :: is => checkTag s i && checkChunk (s + 1) is
+  | s, i :: is =>
+    Nat.beq (Nat.mod ((hexN (Nat.succ i) i []).foldl byteN prefixCrc) 16384) s && checkChunk (Nat.succ s) is
 
 def checkChunks : Nat → List (List Nat) → Bool
   | _, [] => true
@@ -81,21 +239,37 @@ theorem chunk15_ok : checkChunk 15360 Gen.slotTagChunk15 = true := by decide +ke
 
 theorem chunk_lengths : Gen.slotTagChunks.map List.length = List.replicate 16 1024 := by decide +kernel
 
+/-- what one successful entry check says about the model -/
+theorem entry_ok (s i : Nat)
+    (h : Nat.beq (Nat.mod ((hexN (Nat.succ i) i []).foldl byteN prefixCrc) 16384) s = true) :
+    hashSlotSpec (braced (slotTagOfIdx i)) = s := by
+  have hbf := slotTagOfIdx_braceFree i
+  have hw := hashSlotSpec_wrap [] (slotTagOfIdx i) [] (by simp) hbf.2.1 hbf.2.2
+  have hw' : hashSlotSpec (braced (slotTagOfIdx i)) = (crc16Spec (slotTagOfIdx i)).toNat % 16384 := by
+    have ht := hashTagSpec_wrap [] (slotTagOfIdx i) [] (by simp) hbf.2.1 hbf.2.2
+    unfold hashSlotSpec braced
+    simp only [List.nil_append] at ht
+    rw [ht]
+  rw [hw', crc16Spec_toNat, slotTagOfIdx_toNat]
+  unfold tagN crcN
+  rw [List.foldl_append, prefixCrc_eq]
+  exact Nat.eq_of_beq_eq_true h
+
 theorem checkChunk_get (base : Nat) (l : List Nat) (h : checkChunk base l = true) (j : Nat)
-    (hj : j < l.length) : checkTag (base + j) (l.getD j 0) = true := by
+    (hj : j < l.length) : hashSlotSpec (braced (slotTagOfIdx (l.getD j 0))) = base + j := by
   induction l generalizing base j with
   | nil => simp at hj
   | cons i is ih =>
     simp only [checkChunk, Bool.and_eq_true] at h
     cases j with
-    | zero => simpa using h.1
+    | zero => simpa using entry_ok base i h.1
     | succ j' =>
-      have := ih (base + 1) h.2 j' (by simpa using hj)
-      simpa [Nat.add_assoc, Nat.add_comm 1 j'] using this
+      have := ih (Nat.succ base) h.2 j' (by simpa using hj)
+      simpa [Nat.add_assoc, Nat.add_comm 1 j', Nat.succ_eq_add_one] using this
 
 theorem checkChunks_get (base : Nat) (cs : List (List Nat)) (h : checkChunks base cs = true)
     (c j : Nat) (hc : c < cs.length) (hj : j < 1024) :
-    checkTag (base + 1024 * c + j) ((cs.getD c []).getD j 0) = true := by
+    hashSlotSpec (braced (slotTagOfIdx ((cs.getD c []).getD j 0))) = base + 1024 * c + j := by
   induction cs generalizing base c with
   | nil => simp at hc
   | cons x xs ih =>
@@ -117,13 +291,17 @@ theorem all_chunks_ok : checkChunks 0 Gen.slotTagChunks = true := by
     chunk5_ok, chunk6_ok, chunk7_ok, chunk8_ok, chunk9_ok, chunk10_ok, chunk11_ok, chunk12_ok,
     chunk13_ok, chunk14_ok, chunk15_ok, hl, beq_self_eq_true, Bool.and_self, Nat.zero_add, Nat.reduceAdd]
 
-theorem checkTag_slot (s : Nat) (hs : s < 16384) : checkTag s (slotTagIdx s) = true := by
+/-- every entry of the regenerated table: `{tag}` hashes to its slot under the
+    HASH_SLOT specification; the tag is non-empty and brace-free -/
+theorem slotTag_spec (s : Nat) (hs : s < 16384) :
+    hashSlotSpec (braced (slotTag s)) = s ∧
+    lbrace ∉ slotTag s ∧ rbrace ∉ slotTag s ∧ slotTag s ≠ [] := by
   have h := checkChunks_get 0 Gen.slotTagChunks all_chunks_ok (s / 1024) (s % 1024)
     (by have : Gen.slotTagChunks.length = 16 := by decide
         omega)
     (Nat.mod_lt _ (by decide))
   have e : 0 + 1024 * (s / 1024) + s % 1024 = s := by omega
   rw [e] at h
-  exact h
+  exact ⟨h, slotTagOfIdx_braceFree _⟩
 
 end GunYu.BisyncUnit
